@@ -76,6 +76,7 @@ static int on_cp(uint32_t cp, void *ud) {
     return AWS_OP_SUCCESS;
 }
 static struct aws_utf8_decoder *dec;
+static bool dec_cb = true;
 static bool dec_failed; /* an update reported an error: the header gives no meaning to further calls, so they are skipped */
 
 static void dec_destroy(void) {
@@ -173,9 +174,10 @@ int main(int argc, char **argv) {
             vh_end();
         } else if (vh_is("U8BEGIN")) {
             const char *how = vh_args(1);
-            if (!strcmp(how, "new") || !dec) {
+            if (!strcmp(how, "new") || !strcmp(how, "newnocb") || !dec) {
                 dec_destroy();
-                dec = aws_utf8_decoder_new(vh_alloc(), &opt);
+                dec_cb = strcmp(how, "newnocb") != 0;
+                dec = aws_utf8_decoder_new(vh_alloc(), dec_cb ? &opt : NULL); /* NULL options = validate only */
                 how = "new";
             } else if (!strcmp(how, "reset") || dec_failed) {
                 aws_utf8_decoder_reset(dec);
@@ -184,6 +186,7 @@ int main(int argc, char **argv) {
             dec_failed = false;
             vh_begin("U8Begin");
             vh_str("how", how);
+            vh_int("cb", dec_cb);
             vh_end();
         } else if (vh_is("U8UPD")) {
             if (!dec || dec_failed) {
